@@ -39,6 +39,11 @@ CLAIMED = {
 		text='Partial: proved are the exception contract of Nodes.ancestor (an absent tag is NodeNotFound) and, for every memoised query (parent, ancestor, children, expand, values), the derived obligation that the memo key determines all inputs the cached factory closes over (so an answer cannot depend on what was asked before). The bijection pluck ∘ full_pathfy, document-order ids, agreement of parent/children/siblings/ancestor/expand with the tree and query-order independence of the resolved class are a bounded twin over random trees (never counted as proved): the code recurses over third-party tree objects and iterates dicts.',
 		note='Memoize.get transparency read from memo2.py; regex de-indexing and path element access assumed; most of the statement is bounded',
 		ref='DESIGN.md §4 C10'),
+	'C13': dict(
+		level='proof',
+		text='Proved per token class against Python\'s lexical rules on the supported ASCII subset: names and decimal numbers are maximal runs; a single-quoted (plain/r/f, either quote) literal ends at the first quote preceded by an even number of backslashes; every token\'s text is the source slice and its span the standard (line, column) of both ends; bracket depth and block bookkeeping emit exactly (new depth - old depth) block markers, none inside brackets, under the consistent-layout precondition. The operator table is a closed check against CPython\'s table. Whole-sequence equality with CPython\'s tokenize, triple-quoted literals, comments/post-filter and the layout metamorphism are a bounded twin (never counted as proved).',
+		note='Python lexical rules as specified in specs/lexspec.py; handler-table dispatch (_rebuild, parse_impl) and regex post-filter outside the VC subset',
+		ref='DESIGN.md §4 C13'),
 	'C15': dict(
 		level='exploration',
 		text='Bounded stand-in only: the contract V(EntryOfLark(loads(json(dumps(T))))) == V(EntryOfLark(T)) is evaluated at run time on every lark tree up to 4 (5) nodes over an alphabet that contains the corner cases (multi-line tokens, unset/zero positions, empty meta, None placeholders, childless trees) and on real parse trees. Nothing is counted as proved: the two recursive functions work on third-party lark objects and heterogeneous dicts that the VC subset cannot carry without replacing most statements by assumed readings.',
@@ -64,7 +69,7 @@ NOT_APPLICABLE = {
 	'C02': 'equality of two parsers over all texts (lark LALR engine interpreting grammar data vs CPython): no function contract of tranp carries it; only differential testing could, which is a different family (DESIGN.md §5)',
 	'C03': 'type soundness of the inference engine against CPython run-time types needs formal semantics of both languages and the stub library; not expressible as a contract over one call or data structure (DESIGN.md §5)',
 }
-PENDING = {p: 'designed in DESIGN.md §4, contracts not built yet in this round' for p in ['C01','C04','C11','C12','C13','C14']}
+PENDING = {p: 'designed in DESIGN.md §4, contracts not built yet in this round' for p in ['C01','C04','C11','C12','C14']}
 
 def main():
 	checks = []
